@@ -821,7 +821,9 @@ def run(tier: str) -> int:
                       "x 7 environments (plain, autoescape, non-caching loader + re-parsing, liquid.Template() kept / re-created, parse-time flags, other delimiters); "
                       "sub-pools `core` (13) and `impl` (5); histories by length %s; sweep family: 22 array-capable filters x 6 data shapes (int list, list of hashes, hash, "
                       "tuple, list with nil, nested lists). Every history is replayed in one process (sync, async, alternating); every render is compared with the same "
-                      "render as the first render of a fresh process, and the data objects, node trees, template globals and str(template) are digested after every render"
+                      "render as the first and only render of a process forked from an idle, separately started interpreter (sync; the async reference comes from two "
+                      "passes over all jobs, in opposite orders, in two such processes, which have to agree), and the data objects, node trees, template globals and "
+                      "str(template) are digested after every render"
                       % (len(pools.get("full", pools.get("core"))["jobs"]), ck.cov["histories"]["by_length"]))
     ck.assumptions += [
         "the current time is excluded as the statement says: no job uses now/today (so the memoisation of 'now' | date, which keeps the first render's time for as long as the entry lives, is outside the claim)",
